@@ -773,9 +773,100 @@ static void run_payloads(void)
 	jx_log_transcripts();
 }
 
+
+/* ---- sweep layer: many requests pending at one owner when somebody leaves ---------------------------------------------------
+ * The departure of an owner or of a caller sweeps the owner's routing index slot by slot while removing entries.  N requests
+ * from two callers (routed ids that collide in the index more and more often as N grows) are pending at O1 when O1, K1 or K2
+ * leaves: every request of a caller that is still there is answered exactly once (shutdown error if the owner left, the owner's
+ * own late reply otherwise), the one that left hears nothing, nothing is answered twice, and afterwards everybody leaves. */
+static void run_sweep(void)
+{
+	int maxn = (1 << CONFIG_ROUTING_TABLE_ORDER) * 5 / 8;
+	int n = 2 + xp_choose(maxn - 1, XP_SCENARIO, "requests-pending");
+	int who = xp_choose(3, XP_SCENARIO, "who-leaves"); /* 0 the owner, 1 caller K1, 2 caller K2 */
+	int how = xp_choose(2, XP_SCENARIO, "how"); /* FIN / reset */
+	struct sim_opts o = {0};
+	jx_boot(&o);
+	for (int s = 0; s < NSLOT; s++) {
+		conn[s] = -1;
+	}
+	connect_slot(O1);
+	connect_slot(K1);
+	connect_slot(K2);
+	observe();
+	for (int i = 0; i < n; i++) {
+		char pl[64];
+		snprintf(pl, sizeof(pl), "{\"k\":[1,null],\"n\":%d}", reqctr + 1);
+		do_request((i % 3) == 2 ? K2 : K1, 0, i & 1, pl, ",\"timeout\":50");
+		reqs[nreqs - 1].deadline = sim_now() + 50000000000ULL;
+		jx_settle();
+		observe();
+	}
+	int pending = 0;
+	for (int i = 0; i < nreqs; i++) {
+		pending += reqs[i].st == R_PENDING && reqs[i].delivered;
+	}
+	xp_count("requests_pending_at_the_departure", pending);
+	int leaver = who == 0 ? O1 : who == 1 ? K1 : K2;
+	last_action = who == 0 ? "the owner leaves" : "a caller leaves";
+	model_owner_gone(leaver);
+	model_caller_gone(leaver);
+	if (how) {
+		sim_client_reset(conn[leaver], RST_EPOLL);
+	} else {
+		sim_client_fin(conn[leaver]);
+	}
+	conn[leaver] = -1;
+	jx_settle();
+	observe();
+	if (who != 0) {
+		/* the owner answers everything it was given, also the requests of the caller that left */
+		last_action = "the owner answers everything";
+		for (int i = 0; i < nreqs; i++) {
+			struct req *r = &reqs[i];
+			if (r->delivered && r->rid[0]) {
+				if (r->st == R_PENDING) {
+					finalise(r, "result", "{\"ok\":[true,null,1.5]}");
+				}
+				jx_sendf(conn[O1], "{\"id\":\"%s\",\"result\":{\"ok\":[true,null,1.5]}}", r->rid);
+				jx_settle();
+				observe();
+			}
+		}
+	}
+	last_action = "final-expiry";
+	jx_expire_all_timers(4);
+	observe();
+	for (int i = 0; i < nreqs; i++) {
+		bool caller_here = alive(reqs[i].caller) && reqs[i].caller_gen == gen[reqs[i].caller];
+		if (reqs[i].st == R_PENDING && caller_here) {
+			jx_log_transcripts();
+			xp_fail("request-never-finalised:sweep", "request %s of %s is still pending after the departure and all deadlines", reqs[i].idtext, SLOTNAME[reqs[i].caller]);
+		}
+	}
+	last_action = "everybody-leaves";
+	for (int s = 0; s < NSLOT; s++) {
+		if (conn[s] >= 0) {
+			model_owner_gone(s);
+			model_caller_gone(s);
+			sim_client_fin(conn[s]);
+			conn[s] = -1;
+			jx_settle();
+			observe();
+		}
+	}
+	jx_check_idle_baseline("sweep:left-behind:");
+	xp_nontrivial();
+	xp_transition();
+	xp_outcome((uint64_t)pending);
+	xp_state(hash_mix((uint64_t)n * 10 + (uint64_t)who * 2 + (uint64_t)how, 77));
+}
+
 static void run(void)
 {
-	if (xp_param("layer", 0) == 1) {
+	if (xp_param("layer", 0) == 2) {
+		run_sweep();
+	} else if (xp_param("layer", 0) == 1) {
 		run_payloads();
 	} else {
 		run_interleavings();
@@ -786,6 +877,6 @@ const struct driver drv_c03 = {
     .name = "c03",
     .property = "C03",
     .run = run,
-    .rule = "interleaving layer: every sequence of enabled actions up to the depth bound over {requests from 2 callers and a bystander to 2 owners, owner replies (result, error, duplicate, forged with another owner's live id / a never-issued id / a non-string id), clock advance to the next deadline, disconnect and reconnect of every slot}, judged after every action by a reference model of in-flight requests; payload layer: full product caller transport x target x payload x id form x timeout form x owner behaviour x value of the owner's result / error member (object, null, false, 0, empty string / array / object); an execution is non-trivial when it ran to its final expiry phase with the ledger balanced; states = canonical model states (merged tier) or distinct (model state, remaining depth) pairs",
+    .rule = "interleaving layer: every sequence of enabled actions up to the depth bound over {requests from 2 callers and a bystander to 2 owners, owner replies (result, error, duplicate, forged with another owner's live id / a never-issued id / a non-string id), clock advance to the next deadline, disconnect and reconnect of every slot}, judged after every action by a reference model of in-flight requests; payload layer: full product caller transport x target x payload x id form x timeout form x owner behaviour x value of the owner's result / error member (object, null, false, 0, empty string / array / object); sweep layer: 2..40 requests of two callers pending at one owner when the owner or a caller leaves (FIN / reset), then the owner answers everything, then everybody leaves; an execution is non-trivial when it ran to its final expiry phase with the ledger balanced; states = canonical model states (merged tier) or distinct (model state, remaining depth) pairs",
     .assumptions = "timeout and shutdown answers are only required to be error responses (their texts are not compared)|an immediate refusal is accepted only while the owner has at least 2^(ROUTING_TABLE_ORDER-1) requests in flight|a reply carrying a non-string id is a protocol violation of that owner: the daemon may drop it, which the model treats as that owner disconnecting",
 };
